@@ -3,7 +3,7 @@
    every operation as a list of integers (compared exactly with the
    implementation's state). Model file. *)
 From Coq Require Import QArith Qminmax List Bool Arith ZArith.
-From WSI Require Import Vqip Pow Enc Tank Arc QTank Distrib Kinds TimeArea Leak Boundary Net.
+From WSI Require Import Vqip Pow Enc Tank Arc QTank Distrib Kinds TimeArea Leak Boundary Demand Net.
 Import ListNotations.
 Open Scope Q_scope.
 
@@ -289,6 +289,33 @@ Fixpoint run_dnode (maxiter : nat) (n : ndnode) (ops : list dop) : list Z :=
       match dnode_step maxiter n o with
       | None => [(-999)%Z]
       | Some (n', out) => out ++ enc_dnode n' ++ run_dnode maxiter n' r
+      end
+  end.
+
+(* ---------------- Demand / ResidentialDemand (Demand.v) ---------------- *)
+Inductive mop :=
+| MCreatePlain (constant_demand : Q) (load : vec)
+| MCreateRes (efficiency population per_capita : Q) (load : vec) (air ctemp weighting : Q) (other_nons : vec)
+| MEnd.
+Definition nmnode := dmnode (nb * nb).
+Definition enc_mnode (n : nmnode) : list Z :=
+  enc_star (dm_ins _ n) ++ enc_star (dm_outs _ n) ++ ev (dm_demand _ n) ++ ev (dm_backup _ n) ++ ev (dm_received _ n).
+Definition mnode_step (maxiter : nat) (n : nmnode) (o : mop) : option nmnode :=
+  match o with
+  | MCreatePlain cd load => dm_create _ nbport maxiter n (items_plain cd load nn)
+  | MCreateRes eff pop pc load air ctemp w others =>
+      dm_create _ nbport maxiter n
+        (items_residential _ nbport n na nn eff (house_demand pop pc load (house_temperature air ctemp w) others))
+  | MEnd => let n1 := dm_end _ n in
+            Some (mkDM _ (end_star (dm_ins _ n1)) (end_star (dm_outs _ n1)) (dm_demand _ n1) (dm_backup _ n1) (dm_received _ n1))
+  end.
+Fixpoint run_mnode (maxiter : nat) (n : nmnode) (ops : list mop) : list Z :=
+  match ops with
+  | [] => []
+  | o :: r =>
+      match mnode_step maxiter n o with
+      | None => [(-999)%Z]
+      | Some n' => enc_mnode n' ++ run_mnode maxiter n' r
       end
   end.
 
